@@ -258,12 +258,100 @@ def _call_pure(fn, call: ast.Call, mod: Mod, env, prog, depth):
     return fold(body[-1].value, fn.mod, local, prog, depth + 1)
 
 
+def _touches(st, name: str) -> bool:
+    return any(isinstance(n, ast.Name) and n.id == name for n in ast.walk(st))
+
+
+_MUT_METHODS = {"append", "extend", "insert", "remove", "pop", "clear", "sort", "reverse", "update", "add", "discard", "setdefault",
+                "popitem"}
+
+
+def _mutates(st, name: str) -> bool:
+    """Does statement *st* (or a statement nested in it) rebind the module-level *name* or change the object it names in place?"""
+    for n in ast.walk(st):
+        if isinstance(n, ast.Call) and isinstance(n.func, ast.Attribute) and n.func.attr in _MUT_METHODS:
+            base = n.func.value
+            while isinstance(base, (ast.Subscript, ast.Call, ast.Attribute)):
+                base = base.value if not isinstance(base, ast.Call) else base.func
+            if isinstance(base, ast.Name) and base.id == name:
+                return True
+        if isinstance(n, (ast.Assign, ast.AugAssign, ast.AnnAssign, ast.Delete)):
+            tg = n.targets if isinstance(n, (ast.Assign, ast.Delete)) else [n.target]
+            for t in tg:
+                for x in ast.walk(t):
+                    if isinstance(x, ast.Name) and x.id == name:
+                        return True
+    return False
+
+
+def _filled_later(name: str, mod: Mod) -> bool:
+    """Is the module-level *name* changed by a top-level loop / call / augmented assignment after its (single) assignment?"""
+    seen = False
+    for st in mod.tree.body:
+        if isinstance(st, (ast.Assign, ast.AnnAssign)) and any(
+                isinstance(t, ast.Name) and t.id == name for t in (st.targets if isinstance(st, ast.Assign) else [st.target])):
+            seen = True
+            continue
+        if seen and isinstance(st, (ast.For, ast.While, ast.AugAssign, ast.If, ast.With, ast.Expr)) and _mutates(st, name):
+            return True
+    return False
+
+
+_MODEXEC: Dict[tuple, Any] = {}
+
+
+def _module_exec(name: str, mod: Mod, prog, n_assign: int):
+    """Value of a module-level name that is built by several top-level statements (`T = {}` + a loop that fills it + `T =
+    tuple(sorted(T.items()))`): the top-level statements that mention it are executed in order by the analyser's evaluator,
+    other names being folded on demand.  Unknown when a statement is outside the evaluator's subset."""
+    key = (mod.rel, name)
+    if key in _MODEXEC:
+        if isinstance(_MODEXEC[key], Unknown):
+            raise _MODEXEC[key]
+        return _MODEXEC[key]
+    from .minieval import Evaluator, Raised, Unsupported
+    env: Dict[str, Any] = {}
+
+    def lookup(n):
+        if n == name or n in env:
+            return None
+        try:
+            v = fold_name(n, mod, prog)
+        except (Unknown, RecursionError):
+            return None
+        try:
+            return ast.parse(repr(v), mode="eval").body
+        except (SyntaxError, ValueError):
+            return None
+    ev = Evaluator({}, max_steps=200000, lookup=lookup)
+    ev.globals.update({"len": len, "sorted": sorted, "tuple": tuple, "list": list, "dict": dict, "set": set, "frozenset": frozenset,
+                       "reversed": lambda x: list(reversed(x)), "enumerate": lambda x, start=0: list(enumerate(x, start)),
+                       "zip": lambda *x: list(zip(*x)), "max": max, "min": min, "str": str, "range": range})
+    try:
+        for st in mod.tree.body:
+            if isinstance(st, (ast.Import, ast.ImportFrom, ast.FunctionDef, ast.AsyncFunctionDef, ast.ClassDef)):
+                continue
+            if not _touches(st, name):
+                continue
+            ev.stmt(st, env)
+    except (Unsupported, Raised, LookupError, TypeError, ValueError, AttributeError) as e:
+        err = Unknown(f"{name} assigned {n_assign} times in {mod.rel} and the statements that build it cannot be evaluated ({e})")
+        _MODEXEC[key] = err
+        raise err
+    if name not in env:
+        err = Unknown(f"{name} is not bound by the top-level statements of {mod.rel}")
+        _MODEXEC[key] = err
+        raise err
+    _MODEXEC[key] = env[name]
+    return env[name]
+
+
 def fold_name(name: str, mod: Mod, prog: Optional[Program] = None, depth=0):
     prog = prog or program()
     if name in mod.assigns:
         vals = mod.assigns[name]
-        if len(vals) != 1 or not isinstance(vals[0], ast.expr):
-            raise Unknown(f"{name} assigned {len(vals)} times in {mod.rel}")
+        if len(vals) != 1 or not isinstance(vals[0], ast.expr) or _filled_later(name, mod):
+            return _module_exec(name, mod, prog, len(vals))
         return fold(vals[0], mod, None, prog, depth + 1)
     if name in mod.imports:
         src, orig = mod.imports[name]
